@@ -17,7 +17,7 @@ theorem UInv.comp_sideOpen {st : PState} {ug p : Option Nat} {base : Nat} {E : T
 /-- **`v [ body ]`**: the model of `parse` accepts; the result is the value node, the SideEffect node as its right child,
     and the tree of the body below the SideEffect node -/
 theorem parse_value_block (v o c : PToken) (ws wsA wsB : List PToken) (body : Ex) (hv : isAtom10 v = true)
-    (ho : o.type = .startSideEffect) (hc : c.type = .endSideEffect) {L C : Bool} (hbody : body.ok L C = true)
+    (ho : o.type = .startSideEffect) (hc : c.type = .endSideEffect) {F : Fl} (hbody : body.ok F false = true)
     (hws : ∀ w ∈ ws, isTriviaTok w = true) (hwA : ∀ w ∈ wsA, isTriviaTok w = true)
     (hwB : ∀ w ∈ wsB, isTriviaTok w = true)
     (hnum : NumberedFrom 0 (v :: (ws ++ (o :: (wsA ++ (body.toks ++ (wsB ++ [c]))))))) :
@@ -48,14 +48,21 @@ theorem parse_value_block (v o c : PToken) (ws wsA wsB : List PToken) (body : Ex
   have hszV : stV.nodes.size = 1 := by rw [hnV']; rfl
   have hV0 : stV.nodes[0]? = some V := by rw [hnV']; rfl
   have hinvV : UInv stV none none 0 (.node .nil 0 v.col .nil) 0 stV.nodes.size := by
-    refine ⟨⟨isTreeAt_node V hV0 rfl (.nil _) (.nil _) rfl, by rw [hszV]; rfl, by omega, .top 0, ?_⟩, hnnlV, ?_, ?_, ?_, ?_⟩
+    refine ⟨⟨isTreeAt_node V hV0 rfl (.nil _) (.nil _) rfl, by rw [hszV]; exact sortedIn_range' 0 1 1 (by omega),
+      by simp [Tree.inorder], by omega, .top 0, ?_⟩, hnnlV, ?_, ?_, ?_, ?_⟩
     · intro i nd hi
       rw [hnV'] at hi
       cases i with
       | zero => simp at hi; subst hi; exact ⟨10, hVprio⟩
       | succ k => simp at hi
     · simp [underGroupOf, hcgV, PState.init]
-    · exact .plain (by rw [hlV, hszV]; rfl) ⟨V, by rw [hszV]; exact hV0, rfl, prio10_not_groupLike hVprio⟩
+    · refine .plain (by rw [hlV, hszV]; rfl) ⟨V, by rw [hszV]; exact hV0, rfl, prio10_not_groupLike hVprio⟩ ?_ ?_
+      · rw [hszV]; rfl
+      · intro nd hnd
+        rw [hszV, hV0] at hnd
+        injection hnd with hnd; rw [← hnd]
+        show ((getDefinition v.type).2 == SecDef.subexpression) = false
+        rcases hsa with h | h <;> rw [h] <;> rfl
     · simp only [SpineG, if_neg (show 0 ≠ stV.nodes.size by omega)]
       have : dfOf stV.nodes 0 = V.definition := by simp [dfOf, hV0]
       rw [this]
@@ -71,8 +78,8 @@ theorem parse_value_block (v o c : PToken) (ws wsA wsB : List PToken) (body : Ex
     have hb := hinvV'.bot
     generalize hcb : stV.nodes.size = cb0 at hb
     cases hb with
-    | plain hl _ => rw [hl, hszV']
-    | closed cb G h1 _ _ _ _ => omega
+    | plain hl _ _ _ => rw [hl, hszV']
+    | closed cb G h1 _ _ _ _ _ => omega
   -- the side-effect token
   have hw : walkLoop stV'.nodes 5 none false (stV'.nodes.size + 1) 0 (some 0) (some 0) = .ok (some 0, some 0) := by
     unfold walkLoop
@@ -94,7 +101,7 @@ theorem parse_value_block (v o c : PToken) (ws wsA wsB : List PToken) (body : Ex
     | succ k =>
       have : nodes'[k + 1]? = none := by apply Array.getElem?_eq_none; omega
       rw [this] at hi; cases hi
-  obtain ⟨st2, E, re, S, hloop, hbelow, hS, hSd, hSp, hSl, hSr, hSt, htreeE, hinE, hszE, _, hgs2, hprev2, _, href⟩ :=
+  obtain ⟨st2, E, re, S, hloop, hbelow, hS, hSd, hSp, hSl, hSr, hSt, htreeE, hinE, hszE, _, hgs2, hprev2, _, _, _, _, href⟩ :=
     side_body stV' o c nodes' info body wsA wsB hsz' (by rw [hinfo]) hinvV'.nnl hprios' hc hbody hwA hwB _ hnumB []
   rw [hszV'] at hbelow hS htreeE hinE hszE
   rw [hinfo] at hSp hSl
@@ -105,12 +112,13 @@ theorem parse_value_block (v o c : PToken) (ws wsA wsB : List PToken) (body : Ex
     show IsTreeAt st2.nodes (some 0) (some 1) _
     exact isTreeAt_node S hS hSp (by rw [hSl]; exact .nil _) (by rw [hSr]; exact htreeE) (by simp [tokPos, hSt])
   have hnd : (Tree.node .nil 0 v.col (.node .nil 1 o.col E)).inorder.Nodup := by
-    simp only [Tree.inorder, List.nil_append, hinE]
+    simp only [Tree.inorder, List.nil_append]
     rw [List.nodup_cons]
-    refine ⟨?_, nodup_cons_range' 1 2 _ (by omega)⟩
+    refine ⟨?_, nodup_cons_sorted 1 2 _ _ (by omega) hinE⟩
     intro hm
-    rw [List.mem_cons, List.mem_range'_1] at hm
-    omega
+    rcases List.mem_cons.mp hm with e | e
+    · omega
+    · have := (hinE.2 0 e).1; omega
   obtain ⟨r, hr, ht, hn⟩ := finish_gen (st := st2) (by rw [hprev2]; exact comp_endSE _)
     (by rw [hgs2, hgsV2, hgsV]; rfl) htree hnd (by simp [Tree.inorder]) (by omega)
   refine ⟨r, E, ?_, ht, by rw [hn]; simp [dfOf, hS, hSd], by rw [hn]; exact href⟩
